@@ -34,9 +34,9 @@ def run():
     chk = Check("C10")
     corp = Corpus(chk)
     if chk.quick:
-        triples = corp.triples(n_enum=600, n_random=140, salt="c10")
+        triples = corp.triples(n_enum=600, n_random=140, salt="c10") + mergefam.sweep(chk, "useside", 100)
     else:
-        triples = corp.triples(n_enum=9000, n_random=4000, random_maxedits=5, salt="c10")
+        triples = corp.triples(n_enum=9000, n_random=4000, random_maxedits=5, salt="c10") + mergefam.sweep(chk, "useside", 1000, positions=("same", "adjacent", "apart"))
     tasks = [(name, b, l, rr, make_plan(k % 3 == 0 or not chk.quick), {}) for k, (name, b, l, rr, info) in enumerate(triples)]
     info = {t[0]: t[4] for t in triples}
     events = mergefam.generate(tasks)
